@@ -23,13 +23,13 @@ open LyModel LyModel.Tree LyModel.Diff LyModel.Diff.UOB LyModel.Diff.UOB.NB
 /-- **`lyd_diff_insert` among neighbours.**  `X`: instances of `n`'s schema node (value- or key-addressed); `P` / `Q`: siblings of
 earlier / later schema nodes; `moving`: index in `X` of the moved instance.  If an anchor is only given when there are
 instances, `insertUO` on `P ++ X ++ Q` (indices shifted by `|P|`) yields `P ++ X' ++ Q` where `X'` is what it yields on `X`. -/
-theorem insertUO_among_neighbours (S : Schema) (P X Q : List DNode) (n : DNode) (moving : Option Nat) (anchor : Option Bytes)
+theorem insertUO_among_neighbours (S : Schema) (hasParent : Bool) (P X Q : List DNode) (n : DNode) (moving : Option Nat) (anchor : Option Bytes)
     (X' : List DNode) (hd : S.isDupInst n.sid = false)
     (hX : ∀ x ∈ X, x.sid = n.sid) (hP : ∀ x ∈ P, x.sid < n.sid) (hQ : ∀ x ∈ Q, n.sid < x.sid)
     (hm : ∀ i, moving = some i → i < X.length) (hc : X ≠ [] ∨ anchor = none)
-    (h : insertUO S X false n moving anchor = .ok X') :
-    insertUO S (P ++ X ++ Q) false n (moving.map (· + P.length)) anchor = .ok (P ++ X' ++ Q) :=
-  insertUO_mid S P X Q n moving anchor X' hd hX hP hQ hm hc h
+    (h : insertUO S X hasParent n moving anchor = .ok X') :
+    insertUO S (P ++ X ++ Q) hasParent n (moving.map (· + P.length)) anchor = .ok (P ++ X' ++ Q) :=
+  insertUO_mid S hasParent P X Q n moving anchor X' hd hX hP hQ hm hc h
 
 /-- **Simulation, diff side, with neighbours** (`NBCtx`: `P`, `Q` inert, pairwise different schema nodes, before / behind `s`). -/
 theorem diff_userord_ll_neighbours_sim (S : Schema) (fx : Fixes) (s : Nat) (hs : IsUserOrdLeafList S s) (P Q : List DNode)
